@@ -131,4 +131,28 @@ def convertBits (data : List Nat) (fromBits toBits : Nat) (pad : Bool) : Except 
     if k > 0 && (k > 4 || n % 2 ^ k ≠ 0) then .error .incomplete
     else .ok (fixedBE (2 ^ toBits) m (n / 2 ^ k))
 
+/-! `ConvertBits` as written in Go: a byte-wide accumulator `nextByte` filled `toExtract` bits at a time.
+Executable mirror; the driver checks it against the arithmetic model on every case (equality is not proved). -/
+
+/-- the inner `for remFromBits > 0` loop for one input byte `b` (already shifted left by `8 - fromBits`) -/
+def cbInner (toBits : Nat) : Nat → Nat → Nat → Nat → Nat → List Nat → Nat × Nat × List Nat
+  | 0, _, _, nextByte, filled, out => (nextByte, filled, out)
+  | fuel+1, b, remFrom, nextByte, filled, out =>
+    if remFrom = 0 then (nextByte, filled, out) else
+    let remTo := toBits - filled
+    let toExtract := if remTo < remFrom then remTo else remFrom
+    let nextByte := ((nextByte <<< toExtract) ||| (b >>> (8 - toExtract))) % 256
+    let b := (b <<< toExtract) % 256
+    let filled := filled + toExtract
+    if filled = toBits then cbInner toBits fuel b (remFrom - toExtract) 0 0 (nextByte :: out)
+    else cbInner toBits fuel b (remFrom - toExtract) nextByte filled out
+
+def convertBitsAlgo (data : List Nat) (fromBits toBits : Nat) (pad : Bool) : Except BechErr (List Nat) :=
+  if fromBits < 1 || fromBits > 8 || toBits < 1 || toBits > 8 then .error .bitgroups else
+  let (nextByte, filled, out) := data.foldl (fun (st : Nat × Nat × List Nat) d =>
+    cbInner toBits 9 ((d <<< (8 - fromBits)) % 256) fromBits st.1 st.2.1 st.2.2) (0, 0, [])
+  if pad && filled > 0 then .ok (((nextByte <<< (toBits - filled)) % 256 :: out).reverse)
+  else if filled > 0 && (filled > 4 || nextByte ≠ 0) then .error .incomplete
+  else .ok out.reverse
+
 end BV.C16
